@@ -1,4 +1,5 @@
 import FinProto.NoSvc
+import FinProto.Props.EncLemmas
 namespace FinProto
 
 /-- With no service registered the frame is byte for byte the ordinary frame up to the trailer, and the trailer is
@@ -46,5 +47,30 @@ theorem encodeNS_spec (env : Env) (ty : Nat) (fields : List Val) (td : TyDef) (f
   have h' : encFrame env (encTy env (env.fuel - 1)) (zeroTy env (env.fuel - 1)) fd ty fields buf = .ok (v, out) := by
     simpa [encode, Env.fuel, encTy, ht, hfr] using h
   simpa [encodeNS, ht, hfr] using encFrameNS_spec env _ _ fd ty fields buf out v alg w c h' hc hf
+
+/-- C04 / C06 on the path without a checksum service: the bytes appended are the ordinary frame (header, body length patched to
+    the body's size, body) followed by the caller's checksum in the frame's byte order; nothing before `pre` changes. -/
+theorem encFrameNS_frame {env : Env} {f ty : Nat} {td : TyDef} {fd : FrameDesc} {fields : List Val}
+    {pre out : Bytes} {v' : Val} {alg : Alg} {w c : Nat}
+    (htd : env.types[ty]? = some td) (hfr : td.frame = some fd) (hc : fd.cks = some (alg, w))
+    (hf : fields[fd.hdr.length + 2]? = some (.num c))
+    (h : encTy env (f + 1) ty (.msg ty fields) pre = .ok (v', out)) :
+    ∃ hdrBytes bodyBytes v'',
+      encFrameNS env (encTy env f) (zeroTy env f) fd ty fields pre
+        = .ok (v'', pre ++ frameBytes fd hdrBytes bodyBytes ++ toE fd.e w c) := by
+  obtain ⟨hv, hb, body, body', bb, h1, h2, h3, hout, _⟩ := frame_cks_exact htd hfr hc h
+  have h' : encFrame env (encTy env f) (zeroTy env f) fd ty fields pre = .ok (v', out) := by
+    simpa [encTy, htd, hfr] using h
+  obtain ⟨b4, v'', hns, hb4⟩ := encFrameNS_spec env _ _ fd ty fields pre out v' alg w c h' hc hf
+  refine ⟨hb, bb, v'', ?_⟩
+  rw [hns]
+  -- both descriptions of `out` end in a `w`-byte trailer: the parts before it are equal
+  have hlen : (pre ++ frameBytes fd hb bb).length = b4.length := by
+    have := congrArg List.length (hout.symm.trans hb4)
+    simp only [List.length_append, toE_length] at this
+    simp only [List.length_append]
+    omega
+  have := List.append_inj (hout.symm.trans hb4) hlen
+  rw [← this.1]
 
 end FinProto
